@@ -135,7 +135,8 @@ def _store_e2e():
     """failing real operation sequence on MemoryStore, if the scripted / random sequences of the bounded tier find one"""
     from ..bounded.mux import check_c14
     r = check_c14({'tier': 'quick'})
-    return (r.get('failures') or [None])[0]
+    from ..bounded.mux import first_new_failure
+    return first_new_failure(r)
 
 
 class MethodCase(FnCase):
